@@ -319,7 +319,7 @@ Proof. intros (Hb & _). unfold s_size. rewrite Hb. reflexivity. Qed.
 
 Lemma walk_total : forall fuel st,
   inv st -> s_size st < 2 ^ 63 -> (measure st < fuel)%nat ->
-  clean (fst (walk guard_new fuel st)).
+  clean (fst (walk stream_step fuel st)).
 Proof.
   induction fuel as [|f IH]; intros st Hinv Hsz Hm; [lia|].
   cbn [walk]. pose proof (step_inv st Hinv Hsz) as Hs. fold stream_step.
@@ -335,7 +335,7 @@ Proof.
     - destruct (Hadv eq_refl). lia.
     - rewrite (Hstay eq_refl). lia. }
   specialize (IH st' Hinv' ltac:(rewrite (same_file_size _ _ Hsame); exact Hsz) Hm').
-  destruct (walk guard_new f st') as [v evs]. exact IH.
+  destruct (walk stream_step f st') as [v evs]. exact IH.
 Qed.
 
 Lemma load_obs_inv bs junk u st :
@@ -375,7 +375,7 @@ Proof.
   unfold s_size in Hw. rewrite Hb in Hw. specialize (Hw Hsz).
   assert (Hm : (measure st < S (length bs))%nat).
   { destruct (Hi eq_refl) as (_ & Hlt & _). unfold measure, s_size in *. rewrite Hb, Hc, Ho in *. unfold blen in *. lia. }
-  specialize (Hw Hm). destruct (walk guard_new (S (length bs)) st). exact Hw.
+  specialize (Hw Hm). destruct (walk stream_step (S (length bs)) st). exact Hw.
 Qed.
 
 (* every Ok step moves the cursor strictly forward (by the size of the event it leaves behind) *)
@@ -647,7 +647,7 @@ Qed.
    the delivered events, back to back up to the end of the file, clocks in order *)
 Lemma walk_sound : forall fuel st evs,
   inv st -> s_size st < 2 ^ 63 ->
-  walk guard_new fuel st = (VEnd, evs) ->
+  walk stream_step fuel st = (VEnd, evs) ->
   tiles_from (s_buf st) (negb (s_unsorted st)) (next_pos st) (s_lastclock st) evs.
 Proof.
   induction fuel as [|f IH]; intros st evs Hi Hsz Hw; [discriminate|].
@@ -655,7 +655,7 @@ Proof.
   destruct (spec_step st) as [st'|st'|e|q|] eqn:Es; try (inversion Hw; fail).
   - destruct (spec_step_inv st st' Hi Hsz Es) as (Hi' & Hsame & Hc' & Ho' & Hl').
     destruct (s_cur st && (s_offset st' <=? s_offset st)); [discriminate|].
-    destruct (walk guard_new f st') as [v evs'] eqn:Ew. inversion Hw; subst v evs. clear Hw.
+    destruct (walk stream_step f st') as [v evs'] eqn:Ew. inversion Hw; subst v evs. clear Hw.
     specialize (IH st' evs' Hi' ltac:(rewrite (same_file_size _ _ Hsame); exact Hsz) Ew).
     destruct Hsame as (Hb & Hj & Hu). rewrite Hb, Hu in IH.
     destruct (inv_next_pos st' Hi' Hc') as (Hspec & Hrange).
@@ -685,7 +685,7 @@ Lemma walk_complete bs sorted : forall p last evs,
   forall fuel st, inv st -> s_size st < 2 ^ 63 ->
     s_buf st = bs -> negb (s_unsorted st) = sorted -> next_pos st = p -> s_lastclock st = last ->
     (length evs < fuel)%nat ->
-    walk guard_new fuel st = (VEnd, evs).
+    walk stream_step fuel st = (VEnd, evs).
 Proof.
   induction 1 as [last|off last s evs Hlt Hspec Hsort Htl IH];
     intros fuel st Hi Hsz Hb Hu Hp Hl Hf.
@@ -811,7 +811,7 @@ Proof.
     { apply (header_model bs junk). unfold load_obs in El. destruct (blen bs =? 0); [discriminate|].
       destruct (check_stream_header bs junk); [discriminate|reflexivity]. }
     destruct (s_active st) eqn:Ea.
-    + destruct (walk guard_new (S (length bs)) st) as [v evs'] eqn:Ew. intros H. inversion H; subst v evs'.
+    + destruct (walk stream_step (S (length bs)) st) as [v evs'] eqn:Ew. intros H. inversion H; subst v evs'.
       split; [exact Hh|].
       pose proof (walk_sound _ st evs (Hi eq_refl) ltac:(unfold s_size; rewrite Hb; exact Hsz) Ew) as Ht.
       unfold next_pos in Ht. rewrite Hb, Hu, Hc, Ho, Hl in Ht. exact Ht.
@@ -898,7 +898,7 @@ Proof.
       rewrite Hc in Er. unfold c_sizeof_struct_ovni_stream_header in Er.
       unfold spec_header_ok in Hh. change (slen bs) with (blen bs) in Hh.
       destruct (8 <? blen bs) eqn:E1.
-      * cbn [s_active] in Er. destruct (walk guard_new _ _); discriminate.
+      * cbn [s_active] in Er. destruct (walk stream_step _ _); discriminate.
       * replace (8 =? blen bs) with true in Er by lia. discriminate.
   - destruct v; try discriminate. eexists; eexists; reflexivity.
 Qed.
@@ -1040,6 +1040,14 @@ Qed.
 Lemma old_int_overflow :
   exists bs, run_old bs zero_junk false = Run VSOverflow [].
 Proof. exists (hdr ++ jumbo_hdr 251 255 255 127). vm_compute. reflexivity. Qed.
+
+(* two events of an unsorted stream with clocks 2^63 (read as -2^63) and 1080: the signed difference overflows *)
+Lemma old_delta_overflow :
+  exists bs evs, run_old bs zero_junk true = Run VSOverflow evs.
+Proof.
+  exists (hdr ++ [0; 79; 66; 46; 0; 0; 0; 0; 0; 0; 0; 128] ++ [0; 79; 66; 46; 56; 4; 0; 0; 0; 0; 0; 0]). eexists.
+  vm_compute. reflexivity.
+Qed.
 
 (* the repaired step on the same inputs *)
 Lemma new_on_old_witnesses :
